@@ -14,6 +14,7 @@ from __future__ import annotations
 import ast
 
 from .. import cfg
+from .. import inline
 from ..facts import UNKNOWN, call_name, kwarg, norm
 from ..util import contains, func_paths, is_call_named, known_before
 
@@ -221,7 +222,7 @@ def check(run, ctx):
     (run.ok(W5, "separate_files_and_dirs", f"partition by {conds}") if ok else run.finding(W5, "separate_files_and_dirs", f"extra-filter:{conds}", "targets are filtered by more than is_file()/is_dir(): an explicitly named file can be dropped before it is linted", sf.loc))
     el = repo.func("src.cli.utils.execute_linting_on_paths")
     for callee, var in (("lint_files", "files"), ("lint_files_parallel", "files")):
-        c = next((n for n in ast.walk(el.node) if is_call_named(n, callee)), None)
+        c = next((n for n in inline.flat_nodes(repo, el) if is_call_named(n, callee)), None)   # dispatch helpers inlined, parameters substituted
         (run.ok(W5, f"execute_linting_on_paths -> {callee}", f"receives `{var}` unchanged") if c is not None and c.args and isinstance(c.args[0], ast.Name) and c.args[0].id == var else run.finding(W5, "execute_linting_on_paths", f"arg:{callee}", f"{callee} does not receive the unfiltered file group", el.loc))
     run.extra["call_resolution"] = f"{cg.n_resolved}/{cg.n_calls}"
     return __doc__
